@@ -18,7 +18,7 @@ for sid in sorted(os.listdir(os.path.join(V, "seeded"))):
     rows.append((sid, m["property"], m.get("round", 1), note, res.get("status", "?"), ", ".join(sorted(set(keys)))))
 caught = sum(1 for r in rows if r[4] == "CAUGHT")
 out = ["## 11. Seeded changes written by independent sub-agents, and which rules catch them", "",
-       "Each change was written by a fresh sub-agent that saw only the text of one property and a scratch worktree of /repo (nothing from /verif), in four rounds "
+       "Each change was written by a fresh sub-agent that saw only the text of one property and a scratch worktree of /repo (nothing from /verif), in five rounds "
        "(each later round was told which ideas the earlier rounds had used and asked for different ones). Every change kept here was confirmed by `tools/verify_seed.py` in the scratch "
        "worktree: the patch applies to /repo's HEAD of that time, the 30 baseline tests still pass, and the demonstration fails with the change and passes without it on at least one of "
        "the interpreters 3.7-3.10 (3.12 for the JSON-only ones). `tools/seeded.py` applies each patch to a scratch copy (never to /repo) and runs the quick check of the "
@@ -27,12 +27,16 @@ out = ["## 11. Seeded changes written by independent sub-agents, and which rules
        f"Result at the last commit that touched the rules: **{caught} of {len(rows)}** changes make the check of *their own* property exit 1 with a finding naming the changed construct; "
        "the others end in exit 2 ('not decided'), none passes silently. "
        "History: round 1 - after the first evaluation 16 of 36 were caught by their own check (30 of 45 by some check); round 2 started at 11 of 30; round 3 at 14 of 48 "
-       "(22 by some check, 8 more at exit 2); round 4 at 12 of 48 (30 by some check, 7 more at exit 2). The misses drove most of the rule additions listed in section 0a. "
+       "(22 by some check, 8 more at exit 2); round 4 at 12 of 48 (30 by some check, 7 more at exit 2); round 5 at 21 of 48. The misses drove most of the rule additions listed in section 0a. "
        "Not decided, on purpose or for lack of a sound rule:", "",
        "* C10-7, C10-8 - arithmetic of the table stages over integer sequences (`collapse_items` rewritten as a forward pass whose 'previous entry' is the already merged one; the lnotab "
        "walk turned into a `for` over `range(0, max(max_offset, sum(...)), 2)`): exit 2 - whether the bound / the merged entry is right needs symbolic execution of loops over tables.",
        "* C13-9, C02-10 - the target index found by `bisect_left` over a *part* of the sorted target list: exit 2 - whether the part always contains the target is a loop invariant.",
        "* C06-6 - the None-pin decision moved into a pre-scan of `blocks[0]` only: exit 2 (guard calls a helper with a loop; not evaluable).",
+       "* C13-14 - block numbers from `itertools.accumulate` over a bytearray of marks, zipped with the instructions: exit 2 (the block-building loop is not the recognised one; "
+       "whether the running count indexes the right block is arithmetic over two sequences).",
+       "* C02-15 - a new `raise` in the decoder for relative jumps with `target <= next_offset` (JUMP_FORWARD 0 is compiler output): exit 2 from R02.R - every place where from_code can stop "
+       "is one confirmed by reading; whether valid input reaches a new one is not decided.",
        "* C14-7 - `__iter__` re-derives the constants table with its own rank model: exit 2 ('the nested code objects reach the yield through `constants_table(...)`, not by walking "
        "self's blocks directly').", "",
        "| id | round | what the change does (from the sub-agent's note) | own check | rules that fire |", "|---|---|---|---|---|"]
